@@ -23,6 +23,8 @@ FAMILIES["stack"] = {
                 "require_height", "pop", "push", "push_under", "push_all", "pop_n", "copy_n", "copy_n_down", "prepare_fork",
                 "copy_nth", "dup_values", "insert_stack", "remove_n", "rotate_up", "rotate_down", "n_mut",
                 "truncate_stack", "clone_stack_top", "stack_height", "under_stack_height", "exec_clean_stack",
+                "monadic_ref", "monadic_env", "monadic_ref_env", "monadic_mut", "monadic_mut_env",
+                "dyadic_rr", "dyadic_oo_env", "dyadic_rr_env", "dyadic_ro_env",
             ]]},
         {"items": [
             {"kind": "closure_in_arm", "file": "src/run.rs", "impl": UIUA, "fn": "exec_impl", "arm": r"Node::PushUnder\(n, span\)",
